@@ -591,6 +591,40 @@ Definition sprintbuf_gen (flat : bool) (o : oracle) (q : lpb) (out : list byte) 
 Definition sprintbuf := sprintbuf_gen false.
 Definition sprintbuf_flat := sprintbuf_gen true.
 
+(* ------------------------------------------------------------------ the tokener's temporary numeric locale *)
+(* json_tokener_parse_ex, before the first character:
+     duploc = duplocale(oldlocale);            if (duploc == NULL && errno == ENOMEM) { err = memory; return NULL; }
+     newloc = newlocale(LC_NUMERIC_MASK, "C", duploc);
+     if (newloc == NULL) { err = memory; freelocale(duploc); return NULL; }
+     uselocale(newloc);
+   and at "out:"   uselocale(oldlocale); freelocale(newloc);
+   A locale object is a block of the ledger; newlocale with a base either fails (the base stays
+   the caller's) or takes the base over: the result IS that object.
+   [trusting] = the shape that assumes newlocale takes the copy over in every case and so does
+   not release it when newlocale fails (negative control). *)
+Definition locale_setup_gen (trusting : bool) (o : oracle) (s : ast) : res nat :=
+  match alloc o s with                                (* duplocale *)
+  | Ok d s1 =>
+      let s2 := mkast (S (nreq s1)) (live s1) in      (* newlocale: one request, no new block *)
+      if o (nreq s1) then Ok d s2
+      else if trusting then Fail s2 else fail_after (free d s2)
+  | Fail s1 => Fail s1
+  | UB => UB
+  end.
+Definition locale_setup := locale_setup_gen false.
+Definition locale_setup_trusting := locale_setup_gen true.
+
+Definition locale_teardown (newloc : nat) (s : ast) : res unit := free newloc s.
+
+(* one json_tokener_parse_ex call as far as the locale goes: set-up, [body] (the parse proper,
+   whatever it does to the ledger and however it ends), tear-down *)
+Definition parse_bracket (o : oracle) (body : ast -> ast) (s : ast) : res unit :=
+  match locale_setup o s with
+  | Ok l s1 => locale_teardown l (body s1)
+  | Fail s1 => Fail s1
+  | UB => UB
+  end.
+
 (* ------------------------------------------------------------------ configuration calls that allocate *)
 (* json_c_set_serialization_double_format(fmt, scope) called by thread [tid].  The settings are
    SerModel's [fmt_state] (global format, per-thread formats); with them go the blocks that hold
